@@ -395,7 +395,11 @@ where
             }
             Ok(())
         };
-        for (k, v) in &self.keys {
+        // (long histories: the first 4 and the last 20 keys pushed since the last clear)
+        let nk = self.keys.len();
+        let picked: Vec<usize> = if nk > 24 { (0..4).chain(nk - 20..nk).collect() } else { (0..nk).collect() };
+        for i in picked {
+            let (k, v) = &self.keys[i];
             probe(*k, *v, false)?;
             probe(*k - 1, *v, false)?;
             probe(*k, v.wrapping_add(1).max(1), true)?;
@@ -839,6 +843,70 @@ where
     rep.count(if twin { "twin_cycles_unrolled" } else { "cycles_unrolled" }, count);
 }
 
+/// Marathons: every cycle of 1..=2 ops over the cycle alphabet repeated 70 000 times on one deque
+/// (stopped early once more than 64 items are live), oracle after every op.
+pub fn marathon<T: Conv, C: Cont<T>>(ctx: &Ctx, rep: &mut Report, max_len: usize, reps: usize, unit_base: &mut usize)
+where
+    (): SortedDequeMarker<T, Key = T::K>,
+{
+    let ops = vec![Op::Push, Op::PushTight, Op::PopFirst, Op::PopLast, Op::Remove(0), Op::RemoveBack(0), Op::RemoveBack(1), Op::RemoveMid, Op::Clear];
+    let n = ops.len();
+    let mut count = 0u64;
+    let run = |cycle: &[Op]| -> (Result<(), String>, usize) {
+        let mut st: St<T, C> = St::new();
+        let mut k = 0usize;
+        for _ in 0..reps {
+            for op in cycle {
+                k += 1;
+                if let Err(e) = st.apply(*op, false) {
+                    return (Err(e), k);
+                }
+            }
+            if st.m.len() > 64 {
+                break;
+            }
+            // the key space is u32 and keys only grow: stay well inside it
+            if st.counter > 1_000_000_000 {
+                break;
+            }
+        }
+        (Ok(()), k)
+    };
+    for len in 1..=max_len {
+        for c in 0..n.pow(len as u32) {
+            if !ctx.owns(*unit_base + c % 4096) {
+                continue;
+            }
+            let mut x = c;
+            let mut cycle: Vec<Op> = Vec::with_capacity(len);
+            for _ in 0..len {
+                cycle.push(ops[x % n]);
+                x /= n;
+            }
+            if (1..len).any(|d| len % d == 0 && (0..len).all(|i| cycle[i] == cycle[i % d])) {
+                continue;
+            }
+            count += 1;
+            rep.evaluations += 1;
+            let (r, steps) = run(&cycle);
+            rep.transitions += steps as u64;
+            if let Err(e) = r {
+                let again = run(&cycle);
+                if again.0.as_ref().err() != Some(&e) || again.1 != steps {
+                    machinery_failure(&format!("marathon violation did not reproduce identically: cycle [{}] step {}: {}", render(&cycle), steps, e));
+                }
+                rep.violation(Violation {
+                    key: format!("C16:marathon:{}:{}:{}", T::NAME, <C as Cont<T>>::NAME, render(&cycle).replace(' ', "")),
+                    summary: format!("SortedDeque<{}, {}>, cycle [{}] repeated: at step {} (repetition {}): {}", <C as Cont<T>>::NAME, T::NAME, render(&cycle), steps, (steps - 1) / len + 1, e),
+                    replay_text: format!("check: sorted-marathon\nconvention: {}\nbacking: {}\ncycle: {}\nreps: {}\nobserved: step {}: {}\n", T::NAME, <C as Cont<T>>::NAME, render(&cycle), reps, steps, e),
+                });
+            }
+        }
+        *unit_base += 4096;
+    }
+    rep.count("marathon_cycles", count);
+}
+
 pub fn run(ctx: &Ctx) -> Report {
     let mut rep = Report::new();
     let cap = 7;
@@ -875,6 +943,8 @@ pub fn run(ctx: &Ctx) -> Report {
     cycles::<Pair, SmallVec<[Pair; 4]>>(ctx, &mut rep, &[Op::Push; 9], cl_len - 1, cl_reps, &mut unit, false);
     cycles::<Pair, SpyVec<Pair>>(ctx, &mut rep, &[], cl_len - 1, cl_reps, &mut unit, true);
     cycles::<Whole, Vec<Whole>>(ctx, &mut rep, &[], cl_len - 1, cl_reps, &mut unit, true);
+    marathon::<Pair, Vec<Pair>>(ctx, &mut rep, 2, 70_000, &mut unit);
+    rep.note("C16: marathons: every cycle of 1..=2 ops over 9 ops (push, push_tight, pop_first, pop_last, remove of the first / last / last but one / middle key, clear) repeated 70 000 times on one pair/Vec deque, oracle after every op (lookups of the first 4 and the last 20 keys), stopped early once more than 64 items are live".to_string());
     rep.note(format!("C16: periodic unrollings: every cycle of 1..={} ops over {} ops (the alphabet plus rejected pushes, removals by rank from the back and from the middle) repeated {} times on one object (pair/SpyVec, pair/SmallVec4, whole/Vec; pair/SmallVec4 after nine pushes one op shorter); the same one op shorter with TWO deques alive and used alternately, each against its own map", cl_len, all_ops_cyc().len(), cl_reps));
     rep.note(format!("C16: {} non-initial start histories (tombstones then clear, two interior tombstones, emptied by pops, ...) each followed by all op sequences to depth {} (pair/SpyVec) / {} (whole/Vec); the cloning explorers copy the deque before every op (exactly-fitting capacity), the straight explorer re-executes all histories to depth {} on one object", prefixes().len(), depth - 1, depth - 2, depth - 2));
     rep.note(format!(
@@ -891,6 +961,26 @@ pub fn run(ctx: &Ctx) -> Report {
 pub fn replay(text: &str) -> Result<String, String> {
     let conv = field(text, "convention").unwrap_or("pair");
     let backing = field(text, "backing").unwrap_or("SpyVec");
+    if field(text, "check") == Some("sorted-marathon") {
+        let Some(cycle) = field(text, "cycle").and_then(parse_history) else {
+            machinery_failure("cannot parse marathon cycle");
+        };
+        let reps: usize = field(text, "reps").and_then(|r| r.parse().ok()).unwrap_or(70_000);
+        let mut st: St<Pair, Vec<Pair>> = St::new();
+        let mut k = 0usize;
+        for _ in 0..reps {
+            for op in &cycle {
+                k += 1;
+                if let Err(e) = st.apply(*op, false) {
+                    return Ok(format!("cycle [{}] repeated: step {}: {}", render(&cycle), k, e));
+                }
+            }
+            if st.m.len() > 64 || st.counter > 1_000_000_000 {
+                break;
+            }
+        }
+        return Err(format!("cycle [{}] repeated agrees with the reference map", render(&cycle)));
+    }
     if field(text, "check") == Some("sorted-twin") {
         let (Some(pa), Some(pb)) = (field(text, "history-a").and_then(parse_history), field(text, "history-b").and_then(parse_history)) else {
             machinery_failure("cannot parse twin histories");
